@@ -11,5 +11,6 @@ def _W(case):
 PREDICATES = {
     'any': lambda case, v: True,
     'directed_input': lambda case, v: not np.array_equal(_W(case), _W(case).T),
+    'reached_level_2': lambda case, v: ((v.get('info') or {}).get('maxlevel') or 0) >= 2,
     'gamma_ne_1': lambda case, v: abs(case['params'].get('gamma', 1) - 1) > 1e-12,
 }
